@@ -17,11 +17,11 @@ PROP = "C01"
 MODES = ("det", "vol", "sto", "stovol")
 
 
-def build_model(law, variant):
+def build_model(law, variant, ns=3):
     """variant 0: numeric k (dummy parameter), no products; 1: named parameter, first reactant is also a
     product (catalyst; only the net consumption of the others is required in safe mode)."""
     from bioscrape.types import Model
-    sp = ["S1", "S2", "S3", "P"]
+    sp = ["S%d" % (i + 1) for i in range(ns)] + ["P"]
     m = Model(species=sp, initialize_model=False)
     named = variant == 1
     if law["type"] == "massaction":
@@ -49,7 +49,7 @@ def impl_eval(job):
     import numpy as np
     from bioscrape.simulator import ModelCSimInterface, SafeModelCSimInterface
     law, variant = job["law"], job["variant"]
-    m = build_model(law, variant)
+    m = build_model(law, variant, ns=len(job["pts"][0]["x"]))
     prop = m.get_propensities()[0]
     params = m.get_parameter_values().copy()
     plain = ModelCSimInterface(m)
